@@ -285,6 +285,46 @@ def c14_choice(eng, name, options):
     return options[j]
 
 
+def h_random_index(n_conns, n_entries):
+    """protect entries WITHOUT an explicit index: the loader draws one fresh random index per entry (each draw an arbitrary value of the requested
+    range, pairwise different), so no two entries share an index and an ACQUIRE decodes to exactly one entry"""
+    from symx import core
+    eng = core.engine()
+    cfm = MODS['configuration']
+    draws = []
+
+    def randint(a, b):
+        v = eng.sym_int(f'draw{len(draws)}', a, b)
+        for _, w in draws:
+            eng.assume(v != w)
+        draws.append(((a, b), v))
+        return v
+    real_random = cfm.random
+    cfm.random = types.SimpleNamespace(randint=randint)
+    import builtins
+    cfm.int = lambda x=0, *a: x if isinstance(x, core.SymInt) else builtins.int(x, *a)
+    try:
+        d = {}
+        for c in range(n_conns):
+            d[f'conn{c}'] = {'my_addr': str(world.IP2), 'peer_addr': f'192.168.0.{1 + c * 10}', 'my_auth': {'id': 'me', 'psk': 'k'}, 'peer_auth': {'id': f'p{c}', 'psk': 'k'},
+                             'protect': [{'ip_proto': 'tcp', 'peer_port': 1000 + 10 * c + e} for e in range(n_entries)]}
+        conf = cfm.Configuration([world.IP2], d)
+    finally:
+        cfm.random = real_random
+        del cfm.int
+    entries = [e for ic in conf.ike_configurations.values() for e in ic.protect]
+    if len(entries) != n_conns * n_entries:
+        return {'class': ['random_index'], 'violation': f'{len(entries)} protect entries loaded, {n_conns * n_entries} configured'}
+    for i, a in enumerate(entries):
+        for b in entries[i + 1:]:
+            eng.prove(a.index != b.index, 'two protect entries without an explicit index got the SAME index although the random draws differ '
+                                          '(the outbound policy index no longer identifies one entry)')
+    for (a, b), _ in draws:
+        if a < 0 or b > (1 << 29) - 1:
+            return {'class': ['random_index'], 'violation': f'random index drawn from [{a}, {b}], which does not fit the 29 bits left by index << 3'}
+    return ['random_index', len(draws)]
+
+
 SHAPES = {
     'one': [[(4, 0, 1, 'esp')]],
     'two_entries': [[(4, 0, 1, 'esp'), (4, 1, 0, 'ah')]],
@@ -299,6 +339,8 @@ def build_instances(tier):
         n = sum(len(c) for c in conns)
         for k in range(n):
             inst.append(Instance(f'install {sh} symbolic entry {k}', h_install, (sh, k), native=nat(h_install)))
+    for nc, ne in ((1, 2), (2, 1), (2, 2)):
+        inst.append(Instance(f'random indices conns={nc} entries={ne}', h_random_index, (nc, ne), native=nat(h_random_index)))
     for pre in ('fresh', 'established', 'in_flight'):
         for mode in (0, 1):
             inst.append(Instance(f'acquire {pre} mode={mode}', h_acquire, (pre, mode), native=nat(h_acquire),
